@@ -21,7 +21,7 @@ def prog_str(program, for_model=False):
 
 def step_str(st):
     k = st[0]
-    if k == 'W': return "W:%s:%s" % (hx(st[1]), hx(st[2]))
+    if k in 'WT': return "%s:%s:%s" % (k, hx(st[1]), hx(st[2]))
     if k == 'M': return "M:%s" % hx(st[1])
     if k == 'X': return "X:%s" % hx(st[1])
     if k == 'N': return "N:%s:%s" % (hx(st[1]), hx(st[2]))
@@ -73,7 +73,7 @@ class Mirror:
         for i in range(1, len(parts) + 1): self.dirs.add(b"/".join(parts[:i]))
     def apply(self, st):
         k = st[0]
-        if k == 'W':
+        if k in 'WT':
             p = self._b(st[1]); self.files[p] = self._b(st[2]) if not isinstance(st[2], bytes) else st[2]
             self.mkdirs(p.rsplit(b"/", 1)[0] if b"/" in p else b"")
         elif k == 'M': self.mkdirs(self._b(st[1]))
@@ -152,7 +152,7 @@ def run_scenarios(scenarios, mm="n", harness=None, keep_root=None):
             if k == "outdir": outdir = unhexs(v)
         last_snap = {}; last_ls = {}
         for st in full:
-            if st[0] in 'WMXN': mirror.apply(st)
+            if st[0] in 'WTMXN': mirror.apply(st)
             elif st[0] == 'P':
                 v, _ = take("snap"); last_snap = parse_snap(v) if v is not None else {}
                 if runs and runs[-1].get("after") is None: runs[-1]["after"] = last_snap
